@@ -31,7 +31,7 @@ FIELDS = {
 INVARIANTS = {
     "C01": ["G_AckedSurvive", "G_AckedDurable"],
     "C02": ["G_AppliedIsCommitted", "G_StateMachineSafety", "G_CommittedUnique"],
-    "C03": ["G_AckSound", "G_StateMachineSafety", "G_CommittedUnique"],
+    "C03": ["G_AckSound", "G_StateMachineSafety", "G_CommittedUnique", "G_LogContiguous"],
     "C04": ["G_HeadTruthful", "FencedTerm"],
     "C05": ["OneLeaderPerTerm", "NoTermAboveCoordinator"],
     "C07": ["G_DbIsLogPrefix", "G_DurableNotAhead"],
@@ -112,7 +112,7 @@ def replay(ctx, binp, runs, label, timeout="2s", env=None):
 PROP_INVS = {
     "C01": ["AckedSurvive", "AckedDurable"],
     "C02": ["AppliedIsCommitted", "StateMachineSafety", "CommittedUnique"],
-    "C03": ["AckSound", "StateMachineSafety", "CommittedUnique", "AckedDurable"],
+    "C03": ["AckSound", "StateMachineSafety", "CommittedUnique", "AckedDurable", "LogContiguous"],
     "C04": ["HeadTruthful", "FencedTerm"],
     "C05": ["OneLeaderPerTerm", "NoTermAboveCoordinator"],
     "C07": ["DbIsLogPrefix", "DurableNotAheadOfLog"],
